@@ -6,6 +6,7 @@ import re
 
 from ..core import driver
 from ..core.explore import Check
+from ..lang import refint
 
 PRELUDE = ("class C {\n\tv: int\n\tconstructor(self, v: int) {\n\t\tself.v = v\n\t}\n}\n"
            "type A int\n"
@@ -202,6 +203,55 @@ for _sn, _lit in _FX_SHAPES.items():
             _obs += [f"print typeof fx[{_i}]", f"print fx[{_i}]"]
         CATALOGUE[f"fixed-{_sn}-method-{_cn}"] = [f"const fx = {_lit}"] + _call.split("\n") + _obs
 
+# consumer positions x carriers: every syntactic position that consumes a value (the catalogue of C07's capture sites) fed with an
+# operand that reaches it through a container - a list element (variable / literal index), an object field, an element of a nested
+# list, an unwrapped optional.  The operand then arrives as a reference into the container; a statically accepted program must run
+# exactly as the reference interpreter says (no "can only test booleans", no operand mutated in place).
+def _V(n):
+    return ("var", n)
+
+
+def _I(n):
+    return ("int", n)
+
+
+CONSUMER_CARRIERS = {
+    "element-var-index": (("index", _V("le"), _V("zi")), ("index", _V("lb"), _V("zi"))),
+    "element-lit-index": (("index", _V("le"), _I(1)), ("index", _V("lb"), _I(1))),
+    "field": (("field", _V("ob"), "f"), ("field", _V("ob"), "g")),
+    "nested-element": (("index", ("index", _V("ln"), _I(0)), _V("zi")), ("index", ("index", _V("lnb"), _I(0)), _V("zi"))),
+    "optional": (("get", _V("oi")), ("get", _V("obl"))),
+    "variable": (_V("pv"), _V("pb")),
+}
+_CONSUMER_SKIP = {"modify", "modify-in-if", "modify-in-loop", "local-shadow", "self-assign", "self-assign-in-if", "selfcall-arg"}
+
+
+def consumer_sites():
+    from . import c07
+    return [k for k in c07.site_bodies() if k not in _CONSUMER_SKIP]
+
+
+def consumer_program(site, carrier, host):
+    from . import c07
+    ci, cb = CONSUMER_CARRIERS[carrier]
+    body = c07.site_bodies(cv=ci, cb=cb)[site]
+    A = lambda n, e, t=None: ("assign", n, e, t, ())
+    pre = [("class", "Ob", [("f", "int"), ("g", "bool")], ([], [("setfield", _V("self"), "f", _I(2)), ("setfield", _V("self"), "g", ("bool", True))]), []),
+           A("le", ("list", [_I(7), _I(2)]), "[int...]"), A("lb", ("list", [("bool", False), ("bool", True)]), "[bool...]"), A("zi", _I(1)),
+           A("ob", ("new", "Ob", [])), A("ln", ("list", [("list", [_I(7), _I(2)])]), "[[int...]...]"),
+           A("lnb", ("list", [("list", [("bool", False), ("bool", True)])]), "[[bool...]...]"),
+           A("oi", _I(2), "int?"), A("obl", ("bool", True), "bool?"), A("pv", _I(2)), A("pb", ("bool", True)),
+           A("lc", ("list", [_I(1), _I(7)]), "[int...]"), A("cs", ("str", "ab")),
+           A("cf", ("fn", [("q", "int")], "int", [("return", ("bin", "+", _V("q"), _I(1)))]))]
+    obs = [("print", _V("le")), ("print", _V("lb")), ("print", ("field", _V("ob"), "f")), ("print", ("field", _V("ob"), "g")), ("print", _V("ln")), ("print", _V("lnb")),
+           ("print", _V("lc"))]
+    if host == "fn":
+        # operands and consumer inside one function
+        return [pre[0], A("run", ("fn", [], "int", pre[1:] + body)), ("print", ("call", _V("run"), []))]
+    # (an index variable has to be a local of the function that indexes: the language refuses `l[v]` for a captured v)
+    pre = [x for x in pre if not (x[0] == "assign" and x[1] == "zi")]
+    return pre + [A("run", ("fn", [], "int", [A("zi", _I(1))] + body)), ("print", ("call", _V("run"), []))] + obs
+
 
 class C02(Check):
     id = "C02"
@@ -251,6 +301,7 @@ class C02(Check):
               ("Lb3-re-assignment-from-a-nested-block-of-a-function", [c + ("@fnblk",) for c in b if c[1] == "reassign"]),
               ("Lc-return-paths-depth1", c1),
               ("Le-depth2-operator-trees-typeof-vs-kind" + ("-every-11th" if tier == "quick" else ""), tr[::11] if tier == "quick" else tr)]
+        ls.append(("Lx-consumer-positions-x-carriers", [("cons", st, car, host) for st in consumer_sites() for car in CONSUMER_CARRIERS for host in ("closure", "fn")]))
         c2 = [("ret2", i) for i, s in enumerate(skeletons(2)) if count_conds(s) <= 4]
         if tier == "quick":
             c2 = c2[::9]
@@ -335,7 +386,38 @@ class C02(Check):
             return s, 0
         raise ValueError(case)
 
+    def run_consumer(self, case):
+        _, site, car, host = case
+        ast = consumer_program(site, car, host)
+        it = refint.Interp()
+        try:
+            ok, failure = it.run(ast)
+            src = refint.program(ast)
+        except Exception as e:           # the model cannot express this pair: not a verdict
+            return {"outcome": "model-inexpressible", "nontrivial": False, "tags": ["cons-inexpressible"], "show": repr(e)[:200]}
+        res = driver.run_ms(src)
+        if driver.compile_rejected(res):
+            return {"outcome": "rejected", "nontrivial": False, "tags": ["rejected", "cons", "cons-rejected:" + site + "/" + car]}
+        viol = []
+        detail = {"files": {"x.ms": src}, "res": res.brief(), "expected_lines": it.out, "expected_ok": ok}
+        sig = {"group": "cons", "site": site, "carrier": car}
+        if res.cls in ("panic", "abort") and "compiler/src" in res.err:
+            return {"outcome": "compiler-panic", "nontrivial": False, "tags": ["compiler-panic", "cons"]}
+        if ok and res.exit != 0:
+            cls = driver.classify_failure(res)
+            msg = driver.innermost_message(res) or res.err[-150:]
+            viol.append({"sig": dict(sig, kind="dynamic-type-error" if cls == DYNAMIC_TYPE_ERROR else "unexpected-failure"),
+                         "what": f"{list(case)}: accepted by the compiler, fails at run time ({cls}): {msg[:160]}", "detail": detail})
+        elif ok and res.lines() != it.out:
+            viol.append({"sig": dict(sig, kind="wrong-result"), "what": f"{list(case)}: expected {it.out}, got {res.lines()}", "detail": detail})
+        elif not ok and res.exit == 0:
+            viol.append({"sig": dict(sig, kind="missing-failure"), "what": f"{list(case)}: the model fails ({failure.kind}), the program ran to the end", "detail": detail})
+        return {"outcome": ("cons-ok" if res.exit == 0 else "cons-fail") + ("-VIOL" if viol else ""), "viol": viol, "nontrivial": True,
+                "tags": ["cons", "acc-cons", "car-" + car]}
+
     def run_case(self, case):
+        if case[0] == "cons":
+            return self.run_consumer(case)
         src, npairs = self.source(case)
         res = driver.run_ms(src, env={"MSCRIPT_VERIF_TYPED_PRINT": "1"})
         if driver.compile_rejected(res):
